@@ -6,6 +6,7 @@ import pipeline as P
 import families as F
 import defs as D
 
+EQ_FUEL = {'quick': 150, 'thorough': 20000}
 SIZES = {'quick': dict(c08=150, c09=80, c10=120, c11=60), 'thorough': dict(c08=1500, c09=600, c10=900, c11=500)}
 
 
@@ -173,7 +174,7 @@ def equiv_pass(run, cases, caps, prop, log):
     for i, c in enumerate(cases):
         if 'pair' in c['meta']:
             a, b = c['meta']['pair']
-            qs[i] = ['EQUIV %d %d' % (a, b)]
+            qs[i] = ['EQUIV %d %d %d' % (a, b, EQ_FUEL[run.tier])]
     ans = lean_queries(cases, caps, qs)
     n = eq = unknown = 0
     samples = []
@@ -202,7 +203,7 @@ def equiv_pass(run, cases, caps, prop, log):
                               key='formrej|' + c['src'])
                 continue
         a, b = m['pair']
-        v = ans.get((i, 'EQUIV %d %d' % (a, b)), '')
+        v = ans.get((i, 'EQUIV %d %d %d' % (a, b, EQ_FUEL[run.tier])), '')
         if v.startswith('EQ'):
             eq += 1
             if len(samples) < 5:
